@@ -198,4 +198,114 @@ theorem divineMinion_equiv_observations (p : DivineMinion.P) (x y : DivineMinion
 theorem divineMinion_wf_preserved (p : DivineMinion.P) (s : DivineMinion.S) (t : Int) (hw : s.periodic.WF) :
     (DivineMinion.elapse p t s).1.periodic.WF := Periodic.elapse_wf _ _ hw
 
+/-! ### JupyterThunder / ThunderBreak: a hand-written loop over `Periodic.resolve_step` that emits one hit per
+    new count (with the frost-stack modifier of that moment), breaks at the hit limit and switches the skill
+    off.  `X.Inv`: the scheduler's pydantic constraints, and a running scheduler is below `max_count`;
+    `X.Equiv`: same frost stack / cooldown / shock, schedulers with the same constants that are both
+    switched off or equal (`count` and the tick counter of a switched-off scheduler are never read). -/
+theorem jupyterThunder_chunk_independent (p : JupyterThunder.P) (s : JupyterThunder.S) (a b : Int)
+    (hi : JupyterThunder.Inv p s) (ha : 0 ≤ a) (hb : 0 ≤ b) :
+    damages (JupyterThunder.elapse p (a + b) s).2 =
+      damages (JupyterThunder.elapse p a s).2 ++ damages (JupyterThunder.elapse p b (JupyterThunder.elapse p a s).1).2 ∧
+    JupyterThunder.Equiv (JupyterThunder.elapse p b (JupyterThunder.elapse p a s).1).1 (JupyterThunder.elapse p (a + b) s).1 := by
+  have h := loopCore_add _ (JupyterThunder.emit p) (p.maxCount - 1) p.maxCount (JupyterThunder.stop_eq p)
+    ⟨Int.le_refl _, by omega⟩ a b ha hb s.periodic s.frostStack hi
+  simp only [] at h
+  simp only [JupyterThunder.elapse_eq, damages_elapsed_cons _ _ (loopCore_allDamage _ _ (jupyter_emit_isDamage p) _ _ _ _)]
+  exact ⟨h.1, h.2.1.symm, by simp only [Cooldown.elapse_add], h.2.2⟩
+theorem jupyterThunder_inv_preserved (p : JupyterThunder.P) (s : JupyterThunder.S) (t : Int) (hM : 0 < p.maxCount)
+    (hi : JupyterThunder.Inv p s) :
+    JupyterThunder.Inv p (JupyterThunder.elapse p t s).1 ∧
+    ∀ r, JupyterThunder.use p s = .ok r → JupyterThunder.Inv p r.1 := by
+  refine ⟨loopCore_inv _ _ (p.maxCount - 1) p.maxCount (JupyterThunder.stop_eq p) ⟨Int.le_refl _, by omega⟩ t _ _ hi, ?_⟩
+  intro r hr
+  unfold JupyterThunder.use at hr
+  split at hr
+  · simp only [Except.ok.injEq] at hr; rw [← hr]; exact hi
+  · cases hs : s.periodic.setTimeLeft p.lastingDuration with
+    | error e => simp [hs] at hr
+    | ok q =>
+      simp only [hs, Except.ok.injEq] at hr
+      rw [← hr]
+      exact setTimeLeft_loopInv _ _ _ _ hi.1 hM hs
+theorem jupyterThunder_equiv_observations (p : JupyterThunder.P) (x y : JupyterThunder.S) (h : JupyterThunder.Equiv x y)
+    (t : Int) :
+    JupyterThunder.validity p x = JupyterThunder.validity p y ∧
+    ExceptEquiv JupyterThunder.Equiv (JupyterThunder.use p x) (JupyterThunder.use p y) ∧
+    (JupyterThunder.elapse p t x).2 = (JupyterThunder.elapse p t y).2 ∧
+    JupyterThunder.Equiv (JupyterThunder.elapse p t x).1 (JupyterThunder.elapse p t y).1 := by
+  obtain ⟨xf, xc, xp⟩ := x
+  obtain ⟨yf, yc, yp⟩ := y
+  obtain ⟨hf, hc, hp⟩ := h
+  simp only at hf hc hp
+  subst hf; subst hc
+  have hl := loopCore_peq (fun c => decide (p.maxCount ≤ c)) (JupyterThunder.emit p) p.maxCount t xp yp xf hp
+  refine ⟨rfl, ?_, ?_, ?_⟩
+  · simp only [JupyterThunder.use, hp.setTimeLeft]
+    split
+    · exact ⟨rfl, rfl, rfl, hp⟩
+    · cases yp.setTimeLeft p.lastingDuration with
+      | error e => exact rfl
+      | ok per => exact ⟨rfl, rfl, rfl, PEq.refl _⟩
+  · simp only [JupyterThunder.elapse_eq]; rw [hl.1]
+  · simp only [JupyterThunder.elapse_eq]
+    exact ⟨by rw [hl.1], rfl, hl.2⟩
+
+theorem thunderBreak_chunk_independent (p : ThunderBreak.P) (s : ThunderBreak.S) (a b : Int)
+    (hi : ThunderBreak.Inv p s) (ha : 0 ≤ a) (hb : 0 ≤ b) :
+    damages (ThunderBreak.elapse p (a + b) s).2 =
+      damages (ThunderBreak.elapse p a s).2 ++ damages (ThunderBreak.elapse p b (ThunderBreak.elapse p a s).1).2 ∧
+    ThunderBreak.Equiv (ThunderBreak.elapse p b (ThunderBreak.elapse p a s).1).1 (ThunderBreak.elapse p (a + b) s).1 := by
+  have h := loopCore_add (fun c => decide (p.maxCount < c)) (ThunderBreak.emit p s.shock.enabled) p.maxCount p.maxCount
+    (fun _ => rfl) ⟨by omega, Int.le_refl _⟩ a b ha hb s.periodic s.frostStack hi
+  simp only [] at h
+  simp only [ThunderBreak.elapse_eq, damages_elapsed_cons _ _ (loopCore_allDamage _ _ (thunderBreak_emit_isDamage p _) _ _ _ _)]
+  exact ⟨h.1, h.2.1.symm, rfl, by simp only [Cooldown.elapse_add], h.2.2⟩
+theorem thunderBreak_inv_preserved (p : ThunderBreak.P) (s : ThunderBreak.S) (t : Int) (hM : 0 < p.maxCount)
+    (hi : ThunderBreak.Inv p s) :
+    ThunderBreak.Inv p (ThunderBreak.elapse p t s).1 ∧
+    ∀ r, ThunderBreak.use p s = .ok r → ThunderBreak.Inv p r.1 := by
+  refine ⟨loopCore_inv _ _ p.maxCount p.maxCount (fun _ => rfl) ⟨by omega, Int.le_refl _⟩ t _ _ hi, ?_⟩
+  intro r hr
+  unfold ThunderBreak.use at hr
+  split at hr
+  · simp only [Except.ok.injEq] at hr; rw [← hr]; exact hi
+  · cases hs : s.periodic.setTimeLeft p.lastingDuration with
+    | error e => simp [hs] at hr
+    | ok q =>
+      simp only [hs, Except.ok.injEq] at hr
+      rw [← hr]
+      exact setTimeLeft_loopInv _ _ _ _ hi.1 hM hs
+theorem thunderBreak_equiv_observations (p : ThunderBreak.P) (x y : ThunderBreak.S) (h : ThunderBreak.Equiv x y) (t : Int) :
+    ThunderBreak.validity p x = ThunderBreak.validity p y ∧
+    ExceptEquiv ThunderBreak.Equiv (ThunderBreak.use p x) (ThunderBreak.use p y) ∧
+    (ThunderBreak.elapse p t x).2 = (ThunderBreak.elapse p t y).2 ∧
+    ThunderBreak.Equiv (ThunderBreak.elapse p t x).1 (ThunderBreak.elapse p t y).1 := by
+  obtain ⟨xf, xs, xc, xp⟩ := x
+  obtain ⟨yf, ys, yc, yp⟩ := y
+  obtain ⟨hf, hs, hc, hp⟩ := h
+  simp only at hf hs hc hp
+  subst hf; subst hs; subst hc
+  have hl := loopCore_peq (fun c => decide (p.maxCount < c)) (ThunderBreak.emit p xs.enabled) p.maxCount t xp yp xf hp
+  refine ⟨rfl, ?_, ?_, ?_⟩
+  · simp only [ThunderBreak.use, hp.setTimeLeft]
+    split
+    · exact ⟨rfl, rfl, rfl, rfl, hp⟩
+    · cases yp.setTimeLeft p.lastingDuration with
+      | error e => exact rfl
+      | ok per => exact ⟨rfl, rfl, rfl, rfl, PEq.refl _⟩
+  · simp only [ThunderBreak.elapse_eq]; rw [hl.1]
+  · simp only [ThunderBreak.elapse_eq]
+    exact ⟨by rw [hl.1], rfl, rfl, hl.2⟩
+
+/-! non-vacuity: a Thunder Break that reaches its hit limit inside the second chunk, with the frost stack
+    running down; the invariant holds for the state -/
+example : ThunderBreak.Inv ⟨0, 0, 12, 10240000, 3, [100, 80, 64, 51, 40], "D", ["D", "M1", "M2"], ["S0", "S1", "S2"]⟩
+    ⟨⟨2, 5⟩, { interval := 1 }, ⟨0⟩, { interval := 122880, intervalCounter := 122880, timeLeft := 10240000, count := 0 }⟩ := by
+  decide
+example : damages (ThunderBreak.elapse ⟨0, 0, 12, 10240000, 3, [100, 80, 64, 51, 40], "D", ["D", "M1", "M2"], ["S0", "S1", "S2"]⟩
+    (600 * 1024)
+    ⟨⟨2, 5⟩, { interval := 1 }, ⟨0⟩, { interval := 122880, intervalCounter := 122880, timeLeft := 10240000, count := 0 }⟩).2
+    = [.dealtMod 80 12 "M2", .dealtMod 64 12 "M1", .dealt 51 12] := by decide
+
 end Simaple.Props.C09_Mage
